@@ -294,10 +294,16 @@ def run_case(idx, rng, P, rep):
         level['failed'] = type(failed).__name__ if failed else None
         if must_fail:
             rep.count('creation_failures_expected')
-        if failed is not None and not must_fail and not may_fail:
+        no_length = tname in ('Tuple', 'NumericTuple', 'Range') and merged['default'] is None and \
+            not any('length' in a['slots'] for a in ancestors) and 'length' not in exp
+        if failed is not None and not must_fail and not may_fail and no_length and isinstance(failed, ValueError) and \
+                'must be specified if no default' in str(failed):
+            # the documented declaration rule of the Tuple family (a length must be given when there is no default to take it
+            # from) applied to a default of None that arrives by inheritance: refused, with the error of the rule
+            rep.count('tuple_without_length_refused')
+        elif failed is not None and not must_fail and not may_fail:
             sub = ''
-            if tname in ('Tuple', 'NumericTuple', 'Range') and merged['default'] is None and isinstance(failed, TypeError) and \
-                    not any('length' in a['slots'] for a in ancestors) and 'length' not in exp:
+            if no_length and isinstance(failed, TypeError):
                 sub = '/length-computed-from-None-default'
             viol(f'creation-failed-unexpectedly/{"Tuple" if sub else tname}{sub}', f'level {ci} {tname}({exp}) merged default {merged["default"]!r} satisfies '
                  f'merged constraints {cfg_of(tname, merged)} but creation raised {type(failed).__name__}: {str(failed)[:200]}')
